@@ -240,6 +240,13 @@ class GenerateWasmVisitor(Visitor.DefaultVisitor):
 
     def v_ReturnInstruction(self, ri: LinearIR.ReturnInstruction, ctx: Context):
         if ri.Value:
+            # The IR returns values as they are, a value of another type than
+            # the declared result would need a conversion we cannot emit
+            if _ConvertType(ri.Value.Type) != _ConvertType(self.__returnType):
+                raise RuntimeError(
+                    "Cannot translate to WebAssembly: return needs a "
+                    f"conversion from {ri.Value.Type} to {self.__returnType}"
+                )
             self.__PushValueOntoStack(ri.Value, ctx)
 
         assert ctx.Code
@@ -254,6 +261,8 @@ class GenerateWasmVisitor(Visitor.DefaultVisitor):
         functionType = _ConvertFunctionType(
             cast(LinearIR.FunctionType, function.Type)
         )
+
+        self.__returnType = function.Type.ReturnType
 
         # The signature goes into the type section and the function section
         # binds this function (and thereby its export and code entry) to it
